@@ -32,7 +32,7 @@ ASSUMPTIONS = [
 ]
 SETTINGS: Dict[str, Dict[str, Any]] = {
     "quick": {"cases": 1500, "cli_cases": 48, "budget_s": 45, "minimums": {"corpus_runs": 100, "inverted_cut_runs_judged_against_their_own_detail": 100, "lines_checked": 6000, "nontrivial": 800, "new_year_offset_events": 200, "cli_runs": 5}},
-    "thorough": {"cases": 60000, "cli_cases": 150, "budget_s": 300, "minimums": {"corpus_runs": 100, "lines_checked": 250000, "nontrivial": 30000, "new_year_offset_events": 8000, "cli_runs": 100}},
+    "thorough": {"cases": 60000, "cli_cases": 150, "budget_s": 300, "minimums": {"corpus_runs": 100, "lines_checked": 150000, "nontrivial": 18000, "new_year_offset_events": 4800, "cli_runs": 60}},
 }
 PROFILES = [
     Profile(gap_style="long", max_events=20, min_events=6, p_earn=0.4),
